@@ -234,6 +234,8 @@ inductive Elem where
   | nbr (a : Addr) (mask : Nat)
   | single (s : Single)
   | pat (s : String)
+  /-- a prefix / neighbor string that does not parse (`IpNet::from_str` fails) -/
+  | raw
   deriving DecidableEq, Repr, Inhabited
 
 /-- a stored defined set -/
